@@ -597,21 +597,24 @@ def d2b_rule_lookup(chk: Check) -> None:
                      .format(sorted(attrs), other))
 
 
-def d2c_per_rule_handler(chk: Check) -> None:
+def d2c_per_rule_handler(chk: Check, rid: str = "C05-D2c",
+                         quals=("MergerConfig._prepare_user_rules",
+                                "DifferConfig._prepare_user_rules")) -> None:
     """A rule whose path matches nothing in this right-hand document is
     skipped with a warning; the remaining rules of the section still apply.
     Structurally: the handler that swallows the query's YAMLPathException
     sits inside the loop over the section's entries."""
     prog = chk.prog
-    chk.rule("C05-D2c", "an unmatched per-path rule is skipped alone: the "
-             "swallowing handler is inside the loop over the rules",
-             floor=2)
-    for qual in ("MergerConfig._prepare_user_rules",
-                 "DifferConfig._prepare_user_rules"):
-        _per_rule_handler(chk, prog.func(qual))
+    chk.rule(rid, "an unmatched per-path rule is skipped alone: the "
+             "swallowing handler is inside the loop over the rules and "
+             "takes the whole YAMLPathException family",
+             floor=len(quals))
+    for qual in quals:
+        _per_rule_handler(chk, prog.func(qual), rid)
 
 
-def _per_rule_handler(chk: Check, fi: FuncInfo) -> None:
+def _per_rule_handler(chk: Check, fi: FuncInfo, rid: str = "C05-D2c"
+                      ) -> None:
     loops = [n for n in walk_local(fi.node) if isinstance(n, ast.For) and
              "self.config[" in src(n.iter)]
     queries = [c for c in walk_local(fi.node) if isinstance(c, ast.Call) and
@@ -621,20 +624,37 @@ def _per_rule_handler(chk: Check, fi: FuncInfo) -> None:
                             "found")
     loop, q = loops[0], queries[0]
     from sa.model import ancestors
+    def names(t: ast.AST) -> List[str]:
+        return [src(e) for e in t.elts] if isinstance(t, ast.Tuple) \
+            else [src(t)]
     tries = [a for a in ancestors(q) if isinstance(a, ast.Try) and any(
         h.type is not None and "YAMLPathException" in src(h.type) and
         not any(isinstance(x, (ast.Raise, ast.Return)) for x in ast.walk(h))
         for h in a.handlers)]
     text = "for {} in {}".format(src(loop.target), src(loop.iter))
+    # the query can raise any member of the library's exception family (a
+    # rule path that does not fit the *shape* of this document raises
+    # another member than "unmatched"): the handler takes the family root
+    for a in tries:
+        for h in a.handlers:
+            if h.type is not None and "YAMLPathException" in src(h.type) \
+                    and not ({"YAMLPathException", "Exception"} &
+                             set(names(h.type))):
+                chk.fail(rid, fi, h, text + ": except " + src(h.type),
+                         "the handler takes only {}; the query raises other "
+                         "members of the YAMLPathException family for a "
+                         "rule path that does not fit this document, and "
+                         "those now abort the whole preparation (the merge "
+                         "is refused)".format(src(h.type)))
     if not tries:
-        chk.fail("C05-D2c", fi, q, text,
+        chk.fail(rid, fi, q, text,
                  "no handler swallows the unmatched-rule exception: one "
                  "unmatched rule aborts the preparation of all rules")
     elif any(a is loop for a in ancestors(tries[0])):
-        chk.ok("C05-D2c", fi, tries[0], text,
+        chk.ok(rid, fi, tries[0], text,
                "handler inside the loop: the next rule is still prepared")
     else:
-        chk.fail("C05-D2c", fi, tries[0], text,
+        chk.fail(rid, fi, tries[0], text,
                  "the swallowing handler encloses the whole loop: every "
                  "rule listed after an unmatched one is silently dropped")
 
@@ -829,6 +849,91 @@ def d2e_prepare_after_anchors(chk: Check) -> None:
                "_resolve_anchor_conflicts()")
 
 
+def d1i_own_keys_before_tests(chk: Check) -> None:
+    """`key in lhs` decides whether a right-hand key merges into an
+    existing left-hand entry or is added.  For a hash with a merge key the
+    test must see the hash's *own* entries: the inherited ones are removed
+    first (_delete_mergeref_keys), on every path."""
+    from sa.flow import Flow
+    prog = chk.prog
+    chk.rule("C05-D1i", "_merge_dicts removes the inherited (merge-key) "
+             "entries of the left hash before the first membership test on "
+             "it, on every path", floor=1)
+    fi = prog.func("Merger._merge_dicts")
+    lhs = fi.params()[1]
+    bad: List[ast.AST] = []
+    seen = {"tests": 0}
+
+    def scan(expr: ast.AST, st) -> None:
+        for c in ast.walk(expr):
+            if isinstance(c, ast.Compare) and len(c.ops) == 1 and \
+                    isinstance(c.ops[0], (ast.In, ast.NotIn)) and \
+                    src(c.comparators[0]) == lhs:
+                seen["tests"] += 1
+                if not st:
+                    bad.append(c)
+
+    def transfer(stmt: ast.stmt, st, flow):
+        for c in ast.walk(stmt):
+            if isinstance(c, ast.Call) and \
+                    src(c.func).endswith("._delete_mergeref_keys") and \
+                    c.args and src(c.args[0]) == lhs:
+                st = True
+        scan(stmt, st)
+        return [st]
+
+    def branch(test: ast.AST, st, flow):
+        scan(test, st)
+        return [st], [st]
+    Flow(transfer, branch).run(fi.node.body, [False])
+    if not seen["tests"]:
+        raise AnalysisError("membership tests on the left hash not found")
+    if bad:
+        chk.fail("C05-D1i", fi, bad[0], src(bad[0]),
+                 "`{}` can be evaluated while the left hash still shows the "
+                 "entries it only inherits: a right-hand value for such a "
+                 "key is merged into the anchored source hash instead of "
+                 "being added as an override".format(src(bad[0])))
+    else:
+        chk.ok("C05-D1i", fi, fi.node, "membership tests on " + lhs,
+               "all after _delete_mergeref_keys({})".format(lhs))
+
+
+def d2f_identity_key_as_is(chk: Check) -> None:
+    """The identity key inferred for an Array-of-Hashes record is one of
+    the record's own keys, as it is: it is used to subscript the records.
+    A converted key (str(0) for the key 0) is found in no record."""
+    prog = chk.prog
+    chk.rule("C05-D2f", "aoh_merge_key returns the record's own key "
+             "object, not a text / number conversion of it", floor=1)
+    fi = prog.func("MergerConfig.aoh_merge_key")
+    chk.analysed(fi)
+    rets = [r for r in walk_local(fi.node) if isinstance(r, ast.Return)
+            and isinstance(r.value, ast.Name)]
+    if not rets:
+        raise AnalysisError("aoh_merge_key result variable not found")
+    var = rets[-1].value.id
+    n = 0
+    for a in walk_local(fi.node):
+        if isinstance(a, ast.Assign) and src(a.targets[0]) == var and \
+                any(isinstance(x, ast.Subscript) or
+                    (isinstance(x, ast.Call) and src(x.func) in ("next",
+                                                                 "iter"))
+                    for x in ast.walk(a.value)):
+            n += 1
+            conv = [c for c in ast.walk(a.value) if isinstance(c, ast.Call)
+                    and src(c.func) in ("str", "int", "repr", "float")]
+            if conv:
+                chk.fail("C05-D2f", fi, a, src(a)[:60],
+                         "the inferred key passes through `{}`: for a "
+                         "non-text key the result is not a key of the "
+                         "record".format(src(conv[0].func)))
+            else:
+                chk.ok("C05-D2f", fi, a, src(a)[:60], "the key itself")
+    if n == 0:
+        raise AnalysisError("first-key fallback of aoh_merge_key not found")
+
+
 # ---------------------------------------------------------------- D3 ------
 def d3_exceptions(chk: Check) -> None:
     prog = chk.prog
@@ -938,6 +1043,70 @@ def d4_from_str(chk: Check) -> None:
                      .format(e, norm if not ok else src(gbody[0])))
 
 
+def d1j_same_normalisation(chk: Check) -> None:
+    """The UNIQUE policies decide "already there" with `needle in
+    haystack`.  The haystack is the left list with YAML tags removed
+    (`tagless_elements`: a TaggedScalar gives its `.value`, anything else
+    itself); the needle must be normalised the same way and no further.  A
+    typed conversion of the needle (`tagless_value` -> literal evaluation)
+    makes the text '1' equal to the number 1 and unequal to the text '1' on
+    the other side: look-alikes replace left elements, real duplicates are
+    appended."""
+    prog = chk.prog
+    chk.rule("C05-D1j", "the needle of each `in <de-tagged left side>` test "
+             "is the right-hand element or its `.value`, i.e. normalised "
+             "exactly like the haystack", floor=2)
+    te = prog.func("Nodes.tagless_elements")
+    forms = {src(c.args[0]) for c in walk_local(te.node)
+             if isinstance(c, ast.Call) and src(c.func).endswith(".append")
+             and c.args}
+    loopv = [src(n.target) for n in walk_local(te.node)
+             if isinstance(n, ast.For)]
+    if len(loopv) != 1 or forms != {loopv[0], loopv[0] + ".value"}:
+        raise AnalysisError("Nodes.tagless_elements no longer maps an "
+                            "element to itself / its .value: {}".format(
+                                sorted(forms)))
+    n = 0
+    for q in ("Merger._merge_simple_lists", "Merger._merge_sets"):
+        fi = prog.func(q)
+        hay = {src(a.targets[0]) for a in walk_local(fi.node)
+               if isinstance(a, ast.Assign) and isinstance(a.value, ast.Call)
+               and src(a.value.func).endswith("tagless_elements")}
+        for t in walk_local(fi.node):
+            if not (isinstance(t, ast.Compare) and len(t.ops) == 1 and
+                    isinstance(t.ops[0], (ast.In, ast.NotIn)) and
+                    src(t.comparators[0]) in hay):
+                continue
+            n += 1
+            needle = src(t.left)
+            loop = [a for a in ancestors(t) if isinstance(a, ast.For)]
+            if not loop:
+                raise AnalysisError("membership test outside a loop")
+            tgt = loop[0].target
+            elem = src(tgt.elts[-1]) if isinstance(tgt, ast.Tuple) \
+                else src(tgt)
+            defs = [a for a in walk_local(loop[0])
+                    if isinstance(a, ast.Assign) and
+                    src(a.targets[0]) == needle]
+            allowed = {elem, elem + ".value"}
+            bad = [d for d in defs if src(d.value) not in allowed and not (
+                isinstance(d.value, ast.IfExp) and
+                {src(d.value.body), src(d.value.orelse)} <= allowed)]
+            text = "{}: `{}`".format(fi.short, src(t))
+            if needle != elem and not defs:
+                bad = [t]
+            if bad:
+                chk.fail("C05-D1j", fi, bad[0], text,
+                         "the needle is `{}`: not the element or its "
+                         ".value, so the two sides of the membership test "
+                         "are normalised differently (a typed conversion "
+                         "makes the text '1' match the number 1)".format(
+                             src(getattr(bad[0], "value", bad[0]))[:50]))
+            else:
+                chk.ok("C05-D1j", fi, t, text,
+                       "needle is {} / {}.value".format(elem, elem))
+
+
 def run(chk: Check) -> None:
     d1_lists(chk)
     d1_dicts(chk)
@@ -945,6 +1114,12 @@ def run(chk: Check) -> None:
     d2b_rule_lookup(chk)
     d1g_own_keys_survive(chk)
     d1h_list_routing(chk)
+    d1i_own_keys_before_tests(chk)
+    d1j_same_normalisation(chk)
+    from rules.shared import readonly_lookups_rule
+    readonly_lookups_rule(chk, "C05-D2g",
+                          ("yamlpath/merger/mergerconfig.py",), 1)
+    d2f_identity_key_as_is(chk)
     d2c_per_rule_handler(chk)
     d2d_rules_per_document(chk)
     d2e_prepare_after_anchors(chk)
